@@ -113,6 +113,9 @@ def step (s : St) (args : List String) : St × String × String :=
   match args with
   | ["new"] => (s, "ok", "ok")
   | ["end"] => (s, "late=0 acc=1", "late=0 acc=1")
+  -- Remove in flight vs a concurrent Add of the same name: judged by the Go-side monitors only (the
+  -- session discipline automaton over the whole callback trace of the name)
+  | "readd" :: _ => (s, "acc=1 done=1", "acc=1 done=1")
   | "run" :: rest =>
     match (splitTargets rest).mapM parseTarget with
     | some ts =>
